@@ -161,6 +161,7 @@ static LineCol get_linecol_from_position(PegState *s, int32_t position) {
 
 /* Convert a uint64_t to a int64_t by wrapping to a maximum number of bytes */
 static int64_t peg_convert_u64_s64(uint64_t from, int width) {
+    if (width <= 0) return 0;
     int shift = 8 * (8 - width);
     return ((int64_t)(from << shift)) >> shift;
 }
